@@ -29,6 +29,10 @@ sys.path.insert(0, os.path.join(common.VERIF, "refmodel"))
 import extlag  # noqa: E402
 
 EPS = 2.220446049250313e-16
+# validation of the monitor only (mutation runs): C17_SKIP=laws or C17_SKIP=lockstep switches one family of
+# verdicts off, to see that the other one decides on its own; such a run is never better than inconclusive
+LAWS_ON = os.environ.get("C17_SKIP", "") != "laws"
+LOCK_ON = os.environ.get("C17_SKIP", "") != "lockstep"
 RTOL = 1.0e-12          # per integrated step (accumulated rounding), see DESIGN.md C17
 
 VARS = {
@@ -350,6 +354,7 @@ class Verdict(object):
         self.bias_nonzero = {}
         self.truncated = False
         self.track = []        # (t, repeated, x_rep, ext_x) for the twin comparisons
+        self.refl = self.refl_towards = self.refl_last = self.refl_mean = 0
         self.maxdev = 0.0      # largest |observed - model| / tolerance seen in the lock-step comparison
 
 
@@ -361,6 +366,7 @@ def analyse(c, case, outs):
     name = case["var"]
     K = klass(case)
     model = extlag.ExtLag(p)
+    m1 = extlag.ExtLag(p)
     prev_state = None          # model state before the last integrated step
     n_int = 0                  # number of integrated steps so far (tolerance grows with it)
     vscale = math.sqrt(p.kT / p.m)
@@ -487,6 +493,114 @@ def analyse(c, case, outs):
             elif g:
                 V.bad = ("lockstep:gaussians:" + K, "step %d: Gaussian numbers drawn without friction" % t)
                 return V
+            # one update of the documented scheme from the *reported* state of this step (no accumulated history):
+            # tells whether this update meets a wall or wraps, for the one-step identities below
+            m1.set_state(x_rep, v_rep)
+            o1 = m1.step(xa, F_nb, g1, commit=False)
+            if o1["margin"] < 1e-9 * max(1.0, abs(o1["x_new"])):
+                V.truncated = True     # arrival position within rounding of a wall: cannot tell which branch
+                return V
+            if LAWS_ON:
+                # ---- model-free, on the observed columns only ------------------------------------------------
+                # (ii) inside the reflecting walls, before and after the update
+                if p.refl_lower or p.refl_upper:
+                    V.ii_events += 1
+                    for nm, xx in (("reported", x_rep), ("after_update", ex)):
+                        if (p.refl_lower and xx < p.lower) or (p.refl_upper and xx > p.upper):
+                            side = "lower" if (p.refl_lower and xx < p.lower) else "upper"
+                            V.bad = ("outside_reflecting_boundary:%s:%s" % (side, K.split(":")[1]),
+                                     "step %d: coordinate %s = %.17g outside [%s, %s]" % (t, nm, xx, p.lower if p.refl_lower else "-", p.upper if p.refl_upper else "-"))
+                            return V
+                # (iv) same time origin: one-step identities among the columns of this step
+                d_ = p.mi(xa - x_rep)
+                spring = p.k * d_
+                f_now = spring + F_nb
+                t13 = 64 * EPS
+                if not close(Ep, 0.5 * p.k * d_ * d_, t13, 1e-300):
+                    V.bad = ("same_origin:Ep:" + K, "step %d: Ep %.17g is not k/2 (xa - x)^2 = %.17g of the values reported at the same step" % (t, Ep, 0.5 * p.k * d_ * d_))
+                    return V
+                f_exp = spring if case["subtract"] else f_now
+                if abs(ft - f_exp) > t13 * (abs(spring) + abs(F_nb) + 1e-300):
+                    V.bad = ("same_origin:total_force:" + K, "step %d: total force %.17g; spring%s of the same step gives %.17g (spring %.17g, biases %.17g)" % (
+                        t, ft, "" if case["subtract"] else " + biases", f_exp, spring, F_nb))
+                    return V
+                if abs(fa - F_nb) > t13 * (abs(F_nb) + 1e-300):
+                    V.bad = ("same_origin:applied_force:" + K, "step %d: applied force %.17g, biases acting on the coordinate %.17g" % (t, fa, F_nb))
+                    return V
+                kick = 0.5 * p.h * f_now / p.m
+                v_on = v_rep + kick
+                if abs(Ek - 0.5 * p.m * v_on * v_on) > t13 * p.m * (abs(v_rep) + abs(kick)) ** 2 + 1e-300:
+                    V.bad = ("same_origin:Ek:" + K, "step %d: Ek %.17g is not m/2 (v + h f/2m)^2 = %.17g with v, f reported at the same step" % (t, Ek, 0.5 * p.m * v_on * v_on))
+                    return V
+                v1 = v_rep + 2.0 * kick                              # (10a)
+                v2 = p.damp * v1 + p.noise * g1                      # (10c) with the Gaussian the engine handed out
+                psc = abs(ex) + abs(x_rep) + abs(p.h * v1) + abs(p.h * v2)
+                if not o1["bounced"]:
+                    lhs = ex - x_rep
+                    rhs = 0.5 * p.h * v1 + 0.5 * p.h * evv
+                    dev = p.mi(lhs - rhs) if o1["wrapped"] else lhs - rhs
+                    if abs(dev) > 16 * EPS * (psc + (p.period if o1["wrapped"] else 0.0)):
+                        V.bad = ("same_origin:position_update:" + K, "step %d: x_(t+1) - x_t = %.17g but h/2 (v + h f/m) + h/2 v_next = %.17g%s" % (
+                            t, lhs, rhs, " (modulo the period)" if o1["wrapped"] else ""))
+                        return V
+                    if p.period > 0.0 and not (p.wrap_center - 0.5 * p.period <= ex < p.wrap_center + 0.5 * p.period):
+                        V.bad = ("periodic_not_wrapped:" + K.split(":")[1], "step %d: coordinate %.17g outside the period centred on %g" % (t, ex, p.wrap_center))
+                        return V
+                    if abs(evv - v2) > t13 * (abs(v_rep) + abs(2 * kick) + abs(p.noise * g1)) + 1e-300:
+                        V.bad = ("same_origin:velocity_update:" + K, "step %d: v_next %.17g; exp(-gamma h)(v + h f/m) + sqrt(kT(1-exp(-2 gamma h))/m) g = %.17g "
+                                 "(v %.17g, f %.17g, g %.17g)" % (t, evv, v2, v_rep, f_now, g1))
+                        return V
+                else:
+                    # reflection: the arrival position is mirrored at the wall, the particle leaves with reversed momentum
+                    b_ = p.lower if o1["bounced"] < 0 else p.upper
+                    arr = x_rep + 0.5 * p.h * v1 + 0.5 * p.h * v2
+                    if abs(ex - (2.0 * b_ - arr)) > 16 * EPS * (psc + abs(b_)):
+                        V.bad = ("reflection:position:" + K.split(":")[0] + ":" + K.split(":")[1], "step %d: arrival %.17g beyond the wall %g, coordinate after the update %.17g, "
+                                 "mirror image %.17g" % (t, arr, b_, ex, 2.0 * b_ - arr))
+                        return V
+                    V.refl += 1
+                    if evv * o1["bounced"] > 0.0:
+                        V.refl_towards += 1      # leaves the update moving towards the wall it was reflected from
+                    if abs(evv + v2) <= t13 * (abs(v2) + abs(v_rep)):
+                        V.refl_last += 1         # -v_(t+1/2)
+                    elif abs(evv + 0.5 * (v_rep + v2)) <= t13 * (abs(v2) + abs(v_rep)):
+                        V.refl_mean += 1         # -(v_(t-1/2) + v_(t+1/2))/2
+                    else:
+                        V.bad = ("reflection:velocity:" + K.split(":")[0] + ":" + K.split(":")[1], "step %d: arrival velocity %.17g (previous half step %.17g), velocity after "
+                                 "reflection %.17g is neither -v_(t+1/2) nor -(v_(t-1/2)+v_(t+1/2))/2" % (t, v2, v_rep, evv))
+                        return V
+                # routing, model-free: the variable's atoms feel tsf * (k (x - xa) + bypassing biases), nothing else
+                F_var = float(p.tsf) * (-spring) + float(p.tsf) * F_byp
+                o = fl(af[v["plus"]][v["axis"]])
+                if abs(o - F_var) > t13 * float(p.tsf) * (abs(spring) + abs(F_byp)) + 1e-300:
+                    what = "routing:bias_on_atoms" if abs(o - (F_var + p.tsf * F_nb)) <= 1e-9 * (abs(o) + 1e-300) and F_nb != 0.0 else "routing:atoms"
+                    V.bad = ("%s:%s:%s" % (what, case.get("bias_kind", "none"), "mts" if p.tsf > 1 else "tsf1"),
+                             "step %d: force on the variable's atoms %.17g; coupling spring%s of this step: %.17g (biases on the coordinate: %.17g)" % (
+                                 t, o, " + bypassing biases" if byp else "", F_var, F_nb))
+                    return V
+                V.iv_events += 1
+                # continuity / repeated step: (iii)
+                if last is not None:
+                    if rep and not (ip > 0 and last["ip"] != ip):
+                        if x_rep != last["x_rep"] or v_rep != last["v_rep"]:
+                            V.bad = ("repeated_step_advances:newrun:" + K.split(":")[1] + ":" + ("mts" if p.tsf > 1 else "tsf1"),
+                                     "step %d repeated at a run boundary: reported (x, v) = (%.17g, %.17g), first execution (%.17g, %.17g)" % (
+                                         t, x_rep, v_rep, last["x_rep"], last["v_rep"]))
+                            return V
+                        V.repeats_checked += 1
+                    elif last["ip"] == ip:
+                        if x_rep != last["ex"] or v_rep != last["ev"]:
+                            V.bad = ("same_origin:continuity:" + K, "step %d reports (x, v) = (%.17g, %.17g), state after the previous update (%.17g, %.17g)" % (
+                                t, x_rep, v_rep, last["ex"], last["ev"]))
+                            return V
+                    else:
+                        # first update after a resume: same time origin as in the process that wrote the state
+                        ref = last["x_rep"] if case["seg"] == "restart" else last["ex"]
+                        if not close(x_rep, ref, 1e-10, 1.0):
+                            V.bad = ("repeated_step_advances:%s:%s:%s" % (case["seg"], K.split(":")[1], "mts" if p.tsf > 1 else "tsf1"),
+                                     "resumed from the state of step %d; first update at step %d starts from x = %.17g, uninterrupted value %.17g" % (
+                                         case["Ks"][0], t, x_rep, ref))
+                            return V
             state_before = (model.x, model.v)
             mo = model.step(xa, F_nb, g1)
             prev_state = state_before
@@ -499,114 +613,41 @@ def analyse(c, case, outs):
             V.bounces += 1 if mo["bounced"] else 0
             V.wraps += 1 if mo["wrapped"] else 0
             vscale = max(vscale, abs(mo["v_new"]), abs(mo["v"]))
-            F_tot_m = mo["f_spring"] if case["subtract"] else mo["f_total"]
-            F_var_m = mo["f_var"] + float(p.tsf) * F_byp
-            xs = max(1.0, abs(mo["x"]), abs(xa))
-            fsc = p.k * xs + abs(F_nb)
-            cmp = [("x", x_rep, mo["x"], xs), ("v", v_rep, mo["v"], vscale),
-                   ("Ep", Ep, mo["Ep"], max(escale, p.k * xs * (abs(xa - mo["x"]) + p.sigma))), ("Ek", Ek, mo["Ek"], max(escale, p.m * vscale * vscale)),
-                   ("total_force", ft, F_tot_m, fsc),
-                   ("applied_force", fa, F_nb, fscale),
-                   ("x_next", ex, mo["x_new"], max(1.0, abs(mo["x_new"]))), ("v_next", evv, mo["v_new"], vscale)]
-            for law, o, m_, sc in cmp:
-                if abs(o - m_) > V.maxdev * tol * max(sc, abs(m_)):
-                    V.maxdev = abs(o - m_) / (tol * max(sc, abs(m_)))
-                if not (abs(o - m_) <= tol * max(sc, abs(m_))):
-                    key = "lockstep:%s:%s" % (law, K)
-                    if law == "v_next" and mo["bounced"] and abs(ex - mo["x_new"]) <= tol * max(1.0, abs(ex)):
-                        key = "lockstep:reflected_velocity:%s" % K
-                    V.bad = (key, "step %d%s (%d integrated): %s observed %.17g, documented integrator %.17g (diff %.3g, tol %.3g); bounce=%d; "
-                             "inputs: x_t=%.17g v=%.17g xa=%.17g Fbias=%.17g gauss=%.17g" % (
-                                 t, " (repeated)" if rep else "", n_int, law, o, m_, o - m_, tol * max(sc, abs(m_)), mo["bounced"],
-                                 mo["x"], mo["v"], xa, F_nb, g1))
-                    return V
-            # atoms
-            for ia, a in enumerate(af):
-                for d in range(3):
-                    o = fl(a[d])
-                    m_ = 0.0
-                    if d == v["axis"] and ia == v["plus"]:
-                        m_ = F_var_m
-                    elif d == v["axis"] and ia == v["minus"]:
-                        m_ = -F_var_m
-                    if not (abs(o - m_) <= tol * max(float(p.tsf) * fsc, abs(m_))):
-                        V.bad = ("lockstep:atom_forces:%s" % K, "step %d: atom %d component %d receives %.17g, spring%s gives %.17g" % (
-                            t, ia + 1, d, o, " + bypassing biases" if byp else "", m_))
+            if LOCK_ON:
+                F_tot_m = mo["f_spring"] if case["subtract"] else mo["f_total"]
+                F_var_m = mo["f_var"] + float(p.tsf) * F_byp
+                xs = max(1.0, abs(mo["x"]), abs(xa))
+                fsc = p.k * xs + abs(F_nb)
+                cmp = [("x", x_rep, mo["x"], xs), ("v", v_rep, mo["v"], vscale),
+                       ("Ep", Ep, mo["Ep"], max(escale, p.k * xs * (abs(xa - mo["x"]) + p.sigma))), ("Ek", Ek, mo["Ek"], max(escale, p.m * vscale * vscale)),
+                       ("total_force", ft, F_tot_m, fsc),
+                       ("applied_force", fa, F_nb, fscale),
+                       ("x_next", ex, mo["x_new"], max(1.0, abs(mo["x_new"]))), ("v_next", evv, mo["v_new"], vscale)]
+                for law, o, m_, sc in cmp:
+                    if abs(o - m_) > V.maxdev * tol * max(sc, abs(m_)):
+                        V.maxdev = abs(o - m_) / (tol * max(sc, abs(m_)))
+                    if not (abs(o - m_) <= tol * max(sc, abs(m_))):
+                        key = "lockstep:%s:%s" % (law, K)
+                        if law == "v_next" and mo["bounced"] and abs(ex - mo["x_new"]) <= tol * max(1.0, abs(ex)):
+                            key = "lockstep:reflected_velocity:%s" % K
+                        V.bad = (key, "step %d%s (%d integrated): %s observed %.17g, documented integrator %.17g (diff %.3g, tol %.3g); bounce=%d; "
+                                 "inputs: x_t=%.17g v=%.17g xa=%.17g Fbias=%.17g gauss=%.17g" % (
+                                     t, " (repeated)" if rep else "", n_int, law, o, m_, o - m_, tol * max(sc, abs(m_)), mo["bounced"],
+                                     mo["x"], mo["v"], xa, F_nb, g1))
                         return V
-            # ---- model-free, on the observed columns only ------------------------------------------------
-            # (ii) inside the reflecting walls, before and after the update
-            if p.refl_lower or p.refl_upper:
-                V.ii_events += 1
-                for nm, xx in (("reported", x_rep), ("after_update", ex)):
-                    if (p.refl_lower and xx < p.lower) or (p.refl_upper and xx > p.upper):
-                        side = "lower" if (p.refl_lower and xx < p.lower) else "upper"
-                        V.bad = ("outside_reflecting_boundary:%s:%s" % (side, K.split(":")[1]),
-                                 "step %d: coordinate %s = %.17g outside [%s, %s]" % (t, nm, xx, p.lower if p.refl_lower else "-", p.upper if p.refl_upper else "-"))
-                        return V
-            # (iv) same time origin: one-step identities among the columns of this step
-            d_ = p.mi(xa - x_rep)
-            spring = p.k * d_
-            f_now = spring + F_nb
-            t13 = 64 * EPS
-            if not close(Ep, 0.5 * p.k * d_ * d_, t13, 1e-300):
-                V.bad = ("same_origin:Ep:" + K, "step %d: Ep %.17g is not k/2 (xa - x)^2 = %.17g of the values reported at the same step" % (t, Ep, 0.5 * p.k * d_ * d_))
-                return V
-            f_exp = spring if case["subtract"] else f_now
-            if abs(ft - f_exp) > t13 * (abs(spring) + abs(F_nb) + 1e-300):
-                V.bad = ("same_origin:total_force:" + K, "step %d: total force %.17g; spring%s of the same step gives %.17g (spring %.17g, biases %.17g)" % (
-                    t, ft, "" if case["subtract"] else " + biases", f_exp, spring, F_nb))
-                return V
-            if abs(fa - F_nb) > t13 * (abs(F_nb) + 1e-300):
-                V.bad = ("same_origin:applied_force:" + K, "step %d: applied force %.17g, biases acting on the coordinate %.17g" % (t, fa, F_nb))
-                return V
-            kick = 0.5 * p.h * f_now / p.m
-            v_on = v_rep + kick
-            if abs(Ek - 0.5 * p.m * v_on * v_on) > t13 * p.m * (abs(v_rep) + abs(kick)) ** 2 + 1e-300:
-                V.bad = ("same_origin:Ek:" + K, "step %d: Ek %.17g is not m/2 (v + h f/2m)^2 = %.17g with v, f reported at the same step" % (t, Ek, 0.5 * p.m * v_on * v_on))
-                return V
-            if not mo["bounced"] and not mo["wrapped"]:
-                v1 = v_rep + 2.0 * kick
-                lhs = ex - x_rep
-                rhs = 0.5 * p.h * v1 + 0.5 * p.h * evv
-                if abs(lhs - rhs) > 16 * EPS * (abs(ex) + abs(x_rep) + abs(p.h * v1) + abs(p.h * evv)):
-                    V.bad = ("same_origin:position_update:" + K, "step %d: x_(t+1) - x_t = %.17g but h/2 (v + h f/m) + h/2 v_next = %.17g" % (t, lhs, rhs))
-                    return V
-                if p.gamma == 0.0 or case["gausszero"]:
-                    if abs(evv - p.damp * v1) > t13 * (abs(v_rep) + abs(2 * kick)) + 1e-300:
-                        V.bad = ("same_origin:velocity_update:" + K, "step %d: v_next %.17g, exp(-gamma h)(v + h f/m) = %.17g" % (t, evv, p.damp * v1))
-                        return V
-            # routing, model-free: the variable's atoms feel tsf * (k (x - xa) + bypassing biases), nothing else
-            F_var = float(p.tsf) * (-spring) + float(p.tsf) * F_byp
-            o = fl(af[v["plus"]][v["axis"]])
-            if abs(o - F_var) > t13 * float(p.tsf) * (abs(spring) + abs(F_byp)) + 1e-300:
-                what = "routing:bias_on_atoms" if abs(o - (F_var + p.tsf * F_nb)) <= 1e-9 * (abs(o) + 1e-300) and F_nb != 0.0 else "routing:atoms"
-                V.bad = ("%s:%s:%s" % (what, case.get("bias_kind", "none"), "mts" if p.tsf > 1 else "tsf1"),
-                         "step %d: force on the variable's atoms %.17g; coupling spring%s of this step: %.17g (biases on the coordinate: %.17g)" % (
-                             t, o, " + bypassing biases" if byp else "", F_var, F_nb))
-                return V
-            V.iv_events += 1
-            # continuity / repeated step: (iii)
-            if last is not None:
-                if rep and not (ip > 0 and last["ip"] != ip):
-                    if x_rep != last["x_rep"] or v_rep != last["v_rep"]:
-                        V.bad = ("repeated_step_advances:newrun:" + K.split(":")[1] + ":" + ("mts" if p.tsf > 1 else "tsf1"),
-                                 "step %d repeated at a run boundary: reported (x, v) = (%.17g, %.17g), first execution (%.17g, %.17g)" % (
-                                     t, x_rep, v_rep, last["x_rep"], last["v_rep"]))
-                        return V
-                    V.repeats_checked += 1
-                elif last["ip"] == ip:
-                    if x_rep != last["ex"] or v_rep != last["ev"]:
-                        V.bad = ("same_origin:continuity:" + K, "step %d reports (x, v) = (%.17g, %.17g), state after the previous update (%.17g, %.17g)" % (
-                            t, x_rep, v_rep, last["ex"], last["ev"]))
-                        return V
-                else:
-                    # first update after a resume: same time origin as in the process that wrote the state
-                    ref = last["x_rep"] if case["seg"] == "restart" else last["ex"]
-                    if not close(x_rep, ref, 1e-10, 1.0):
-                        V.bad = ("repeated_step_advances:%s:%s:%s" % (case["seg"], K.split(":")[1], "mts" if p.tsf > 1 else "tsf1"),
-                                 "resumed from the state of step %d; first update at step %d starts from x = %.17g, uninterrupted value %.17g" % (
-                                     case["Ks"][0], t, x_rep, ref))
-                        return V
+                # atoms
+                for ia, a in enumerate(af):
+                    for d in range(3):
+                        o = fl(a[d])
+                        m_ = 0.0
+                        if d == v["axis"] and ia == v["plus"]:
+                            m_ = F_var_m
+                        elif d == v["axis"] and ia == v["minus"]:
+                            m_ = -F_var_m
+                        if not (abs(o - m_) <= tol * max(float(p.tsf) * fsc, abs(m_))):
+                            V.bad = ("lockstep:atom_forces:%s" % K, "step %d: atom %d component %d receives %.17g, spring%s gives %.17g" % (
+                                t, ia + 1, d, o, " + bypassing biases" if byp else "", m_))
+                            return V
             # trajectory columns of the same calc
             if traj is not None:
                 row = traj[si]
@@ -890,6 +931,9 @@ def run(tier, replay):
         c.bump("periodic_wraps", V.wraps)
         c.bump("repeated_steps_checked", V.repeats_checked)
         c.bump("states_compared_on_resume", V.restart_checked)
+        c.bump("reflections_velocity_is_minus_mean_of_adjacent_half_steps", V.refl_mean)
+        c.bump("reflections_velocity_is_minus_arrival_velocity", V.refl_last)
+        c.bump("reflections_leaving_towards_the_wall", V.refl_towards)
         c.extra["max_deviation_over_tolerance"] = max(c.extra.get("max_deviation_over_tolerance", 0.0), V.maxdev if V.maxdev == V.maxdev and V.maxdev < 1.0 else 0.0)
         for k_, n_ in V.bias_nonzero.items():
             c.bump("nonzero_bias_force_steps_" + k_, n_)
@@ -1033,4 +1077,8 @@ def run(tier, replay):
     hits = c.extra.get("boundary_hits", 0)
     floor = (n_complete >= 60 and law_traj["i"] >= 10 and law_traj["ii"] >= 10 and law_traj["iii"] >= 10 and law_traj["iv"] >= 10
              and hits >= 5 and c.extra.get("repeated_steps_checked", 0) >= 10 and (quick or law_traj["v"] >= 3))
-    return c.finish(floor, "lock-step trajectories %d, per law %s, boundary hits %d" % (n_complete, law_traj, hits))
+    if not (LAWS_ON and LOCK_ON):
+        c.extra["skipped"] = os.environ.get("C17_SKIP")
+        floor = False
+    return c.finish(floor, "lock-step trajectories %d, per law %s, boundary hits %d%s" % (
+        n_complete, law_traj, hits, "" if (LAWS_ON and LOCK_ON) else "; C17_SKIP set (validation run)"))
